@@ -42,6 +42,9 @@ class FrozenSetContainment(TracingModule):
         container = frame_stack_read(frame, -1)
         if type(container) is frozenset:
             frame_stack_write(frame, -1, LinearSet(list(container)))
+        elif type(container) is dict and not any(isinstance(k, CrossHairValue) for k in container):
+            # membership of a symbolic key in a dict with concrete keys: a disjunction of equalities instead of a hash
+            frame_stack_write(frame, -1, LinearSet(list(container)))
 
 core.register_opcode_patch(FrozenSetContainment())
 
